@@ -19,6 +19,7 @@ type c16Case struct {
 	Pos   int    `json:"pos,omitempty"`  // mutate: byte offset inside the block
 	Op    string `json:"op,omitempty"`   // mutate: "del", "dup", "set", "swap" (with the next byte)
 	Byte  int    `json:"byte,omitempty"` // mutate: replacement byte for "set"
+	Pad   int    `json:"pad,omitempty"`  // scan: extra characters in the definition (shifts the ORIGIN block in the stream)
 	Lens  []int  `json:"lens,omitempty"` // stream: residue counts of the records of one stream (record k uses Alpha rotated by k)
 }
 
@@ -51,9 +52,13 @@ func refOrigin(p []byte) string {
 	return b.String()
 }
 
-func c16Record(n int, block string) string {
+func c16Record(n int, block string) string { return c16RecordPad(n, block, 0) }
+
+// c16RecordPad: the record with pad extra characters in its (one-line) definition, which moves every later byte of the
+// record by exactly pad positions in the stream.
+func c16RecordPad(n int, block string, pad int) string {
 	return fmt.Sprintf("LOCUS       TEST              %10d bp    DNA     linear   SYN 01-JAN-2020\n"+
-		"DEFINITION  d.\nACCESSION   A\nVERSION     A.1\nKEYWORDS    .\nSOURCE      s\n  ORGANISM  o\n            Bacteria.\n"+
+		"DEFINITION  d"+strings.Repeat("x", pad)+".\nACCESSION   A\nVERSION     A.1\nKEYWORDS    .\nSOURCE      s\n  ORGANISM  o\n            Bacteria.\n"+
 		"FEATURES             Location/Qualifiers\n     misc_feature    1\nORIGIN      \n%s//\n", n, block)
 }
 
@@ -133,7 +138,7 @@ func c16Check(c c16Case) *Violation {
 		}
 		return v
 	case "scan":
-		text := c16Record(c.Len, want)
+		text := c16RecordPad(c.Len, want, c.Pad)
 		lf, cr := scanOne(text), scanOne(crlf(text))
 		for _, x := range []struct {
 			name string
@@ -365,6 +370,21 @@ func TestC16(t *testing.T) {
 		}
 	}
 	e5.done(true)
+	// read-size boundaries: the record is shifted byte by byte through a whole 4096-byte period, so that every byte of
+	// the ORIGIN block and of its line ends (LF and CRLF) is once the last and once the first byte of a read block
+	e6 := enumPart(t, c16Prop, st, "read-boundary-sweep")
+	sweepLens := []int{130}
+	if thorough() {
+		sweepLens = []int{1, 61, 130, 600}
+	}
+	for _, n := range sweepLens {
+		for pad := 0; pad < 4096; pad++ {
+			if !e6.try(c16Case{Mode: "scan", Len: n, Alpha: "acgt", Pad: pad}) {
+				return
+			}
+		}
+	}
+	e6.done(true)
 	// mutate: every byte offset of the block x {delete, duplicate, set to space/letter/digit/newline}
 	e4 := enumPart(t, c16Prop, st, "mutated-blocks")
 	lens := []int{1, 9, 10, 11, 59, 60, 61, 70, 119, 120, 121}
